@@ -283,6 +283,8 @@ def gen_scenario(rng, knobs=None):
             key = (p, tuple(nm))
             if group == "cond" and len(multi[tuple(nm)]) > 1:
                 continue                  # coroutine guard inside a conjunction of providers: D10
+            if nm[0] == 0 and nm[1] >= 500:
+                continue                  # a plain attribute, not a function
             if mode == "all" or (mode == "mixed" and rng.random() < 0.5) or (mode == "one" and not acoro):
                 acoro.append([p, nm[0], nm[1]])
         # a plain (non-coroutine) callback that sends from the async engine gets an un-awaited
